@@ -54,6 +54,12 @@ pub fn distance_case(cx: &mut Ctx, n: u64, case: &Value) {
     }
     judge("distance", "Euclidean.distance(a, b)".into(), dist_cc(&a, &b), 1.0);
     judge("distance_symmetric", "Euclidean.distance(b, a)".into(), dist_cc(&b, &a), 1.0);
+    // the deprecated EuclideanDistance trait (same pairs, separate impl blocks) and the f32 scalar type
+    {
+        #[allow(deprecated)]
+        let legacy = guard(|| { use geo::EuclideanDistance; a.geometry().euclidean_distance(&b.geometry()) });
+        judge("distance_legacy_trait", "Geometry(a).euclidean_distance(Geometry(b))".into(), legacy, 1.0);
+    }
     judge("distance_geometry_enum", "Euclidean.distance(Geometry a, Geometry b)".into(), dist_gg(&a, &b), 1.0);
     judge("distance_geometry_enum", "Euclidean.distance(Geometry b, Geometry a)".into(), dist_gg(&b, &a), 1.0);
     for (name, va) in a.variants() {
@@ -66,5 +72,13 @@ pub fn distance_case(cx: &mut Ctx, n: u64, case: &Value) {
     for k in 0..2usize {
         let m = &maps[(n as usize + seed + 4 * k) % maps.len()];
         judge("distance_exact_map", format!("map {}", m.name), dist_cc(&m.on(&a), &m.on(&b)), m.similarity().unwrap());
+    }
+    {
+        use geo::MapCoords;
+        let (fa, fb) = (a.geometry().map_coords(|c| geo::Coord { x: c.x as f32, y: c.y as f32 }), b.geometry().map_coords(|c| geo::Coord { x: c.x as f32, y: c.y as f32 }));
+        match guard(|| Euclidean.distance(&fa, &fb)) {
+            Ok(d) if (num == 0.0) == (d == 0.0) && ((d as f64) * (d as f64) - want2).abs() <= 1e-5 * want2.max(1.0) => cx.ok("distance_f32"),
+            other => cx.bad("C07", "distance_f32", case, json!({"what": "Euclidean.distance on Geometry<f32>", "got": format!("{other:?}"), "want_d2": want2})),
+        }
     }
 }
